@@ -326,7 +326,7 @@ theorem stepAsync_eq (nested : Nested) (sem : Sem) (gi : Nat) (g : GraphD) (runS
        | .none => .ok ns2 log
        | some r =>
          match r.out.pause, r.out.res with
-         | some p, _ => .pause p log
+         | some p, _ => .pause p ns2 log
          | .none, .error e => .fail e ns2 log
          | .none, .ok _ => .ok ns2 log) := rfl
 
@@ -553,7 +553,7 @@ theorem stepSync_cons (nested : Nested) (sem : Sem) (gi : Nat) (g : GraphD) (run
            | .none => ns
          match out.pause with
          | some p =>
-           .pause p (log ++ [startEv] ++ out.log ++
+           .pause p s (log ++ [startEv] ++ out.log ++
              [.ev { kind := "NodeError", span := sp, parent := some runSpan, name := nd.name }])
          | .none =>
            match out.res with
@@ -574,7 +574,7 @@ inductive StepAbs
 def StepOut.abs : StepOut → StepAbs
   | .ok ns _ => .ok ns
   | .fail e ps _ => .fail e ps
-  | .pause p _ => .pause p
+  | .pause p _ _ => .pause p
 
 /-- the sync step on interrupt-free ready lists, expressed with the per-node results of the
 async step (which depend on the snapshot only) -/
@@ -748,7 +748,7 @@ end
 def StepOut.SchedEquiv : StepOut → StepOut → Prop
   | .ok a la, .ok b lb => GState.equiv a b ∧ la.Perm lb
   | .fail e a la, .fail e' b lb => e = e' ∧ GState.equiv a b ∧ la.Perm lb
-  | .pause p la, .pause p' lb => p = p' ∧ la.Perm lb
+  | .pause p a la, .pause p' b lb => p = p' ∧ GState.equiv a b ∧ la.Perm lb
   | _, _ => False
 
 theorem asyncRs_of_no_interrupt {rs : List NodeD} (h : ∀ nd ∈ rs, nd.kind ≠ .interrupt) : asyncRs₂ rs = rs := by
@@ -805,7 +805,7 @@ theorem stepAsync_congr (o₁ o₂ : List Nat) {s s' : GState} (h : GState.equiv
   | none => exact ⟨hst, hlog⟩
   | some r =>
     cases hp : r.out.pause with
-    | some p => simp only [hp, StepOut.SchedEquiv]; exact ⟨trivial, hlog⟩
+    | some p => simp only [hp, StepOut.SchedEquiv]; exact ⟨trivial, hst, hlog⟩
     | none =>
       cases hr : r.out.res with
       | error e => simp only [hp, hr, StepOut.SchedEquiv]; exact ⟨trivial, hst, hlog⟩
@@ -1067,13 +1067,13 @@ theorem stepSync_calls (nested : Nested) (sem : Sem) (gi : Nat) (g : GraphD) (ru
 theorem StepOut.SchedEquiv.cases {X Y : StepOut} (h : StepOut.SchedEquiv X Y) :
     (∃ a la b lb, X = .ok a la ∧ Y = .ok b lb ∧ GState.equiv a b ∧ la.Perm lb) ∨
     (∃ e a la b lb, X = .fail e a la ∧ Y = .fail e b lb ∧ GState.equiv a b ∧ la.Perm lb) ∨
-    (∃ p la lb, X = .pause p la ∧ Y = .pause p lb ∧ la.Perm lb) := by
+    (∃ p a la b lb, X = .pause p a la ∧ Y = .pause p b lb ∧ GState.equiv a b ∧ la.Perm lb) := by
   cases X with
   | ok a la =>
     cases Y with
     | ok b lb => exact Or.inl ⟨a, la, b, lb, rfl, rfl, h.1, h.2⟩
     | fail _ _ _ => exact h.elim
-    | pause _ _ => exact h.elim
+    | pause _ _ _ => exact h.elim
   | fail e a la =>
     cases Y with
     | ok _ _ => exact h.elim
@@ -1081,15 +1081,15 @@ theorem StepOut.SchedEquiv.cases {X Y : StepOut} (h : StepOut.SchedEquiv X Y) :
       obtain ⟨h1, h2, h3⟩ := h
       subst h1
       exact Or.inr (Or.inl ⟨e, a, la, b, lb, rfl, rfl, h2, h3⟩)
-    | pause _ _ => exact h.elim
-  | pause p la =>
+    | pause _ _ _ => exact h.elim
+  | pause p a la =>
     cases Y with
     | ok _ _ => exact h.elim
     | fail _ _ _ => exact h.elim
-    | pause p' lb =>
-      obtain ⟨h1, h2⟩ := h
+    | pause p' b lb =>
+      obtain ⟨h1, h2, h3⟩ := h
       subst h1
-      exact Or.inr (Or.inr ⟨p, la, lb, rfl, rfl, h2⟩)
+      exact Or.inr (Or.inr ⟨p, a, la, b, lb, rfl, rfl, h2, h3⟩)
 
 theorem execNode_gate_dec (nested : Nested) (sem : Sem) (gi : Nat) (nd : NodeD) (inputs : AL Val) (ns : GState)
     (sp : Span) (outs : AL Val) (hg : nd.isGate = true)
@@ -1670,18 +1670,18 @@ theorem filterOutputs_congr₂ (g : GraphD) {a b : GState} (h : a.values = b.val
   unfold filterOutputs
   rw [h]
 
-/-- two loop results that agree up to logs, decision order and (on failure) the partial state -/
+/-- two loop results that agree up to logs, decision order and (on failure / pause) the partial state -/
 def LoopOut.Rel : LoopOut → LoopOut → Prop
   | .done a _ _, .done b _ _ => GState.equiv a b
   | .fail e _ _ _, .fail e' _ _ _ => e = e'
-  | .pause p a _ _, .pause p' b _ _ => p = p' ∧ GState.equiv a b
+  | .pause p _ _ _, .pause p' _ _ _ => p = p'
   | _, _ => False
 
 theorem StepOut.eq_of_abs_ok {Y : StepOut} {ns : GState} (h : Y.abs = .ok ns) : ∃ l, Y = .ok ns l := by
   cases Y with
   | ok a l => simp only [StepOut.abs, StepAbs.ok.injEq] at h; subst h; exact ⟨l, rfl⟩
   | fail _ _ _ => simp [StepOut.abs] at h
-  | pause _ _ => simp [StepOut.abs] at h
+  | pause _ _ _ => simp [StepOut.abs] at h
 
 theorem StepOut.eq_of_abs_fail {Y : StepOut} {e : ErrId} {ps : GState} (h : Y.abs = .fail e ps) :
     ∃ l, Y = .fail e ps l := by
@@ -1690,26 +1690,28 @@ theorem StepOut.eq_of_abs_fail {Y : StepOut} {e : ErrId} {ps : GState} (h : Y.ab
   | fail e' a l =>
     simp only [StepOut.abs, StepAbs.fail.injEq] at h
     obtain ⟨h1, h2⟩ := h; subst h1; subst h2; exact ⟨l, rfl⟩
-  | pause _ _ => simp [StepOut.abs] at h
+  | pause _ _ _ => simp [StepOut.abs] at h
 
-theorem StepOut.eq_of_abs_pause {Y : StepOut} {p : PauseInfo} (h : Y.abs = .pause p) : ∃ l, Y = .pause p l := by
+theorem StepOut.eq_of_abs_pause {Y : StepOut} {p : PauseInfo} (h : Y.abs = .pause p) : ∃ ps l, Y = .pause p ps l := by
   cases Y with
   | ok _ _ => simp [StepOut.abs] at h
   | fail _ _ _ => simp [StepOut.abs] at h
-  | pause p' l => simp only [StepOut.abs, StepAbs.pause.injEq] at h; subst h; exact ⟨l, rfl⟩
+  | pause p' ps l => simp only [StepOut.abs, StepAbs.pause.injEq] at h; subst h; exact ⟨ps, l, rfl⟩
 
 /-- sync paused ⇒ async pauses with the same `PauseInfo` (the first bad node in ready order) -/
 theorem pause_core (nested : Nested) (sem : Sem) (gi : Nat) (g : GraphD) (runSpan : Span) (k : Nat) (s : GState)
     (rs : List NodeD) (hni : ∀ nd ∈ rs, nd.kind ≠ .interrupt)
-    (p : PauseInfo) (log : List Log) (order : List Nat)
-    (hsync : stepSync nested sem gi g runSpan k s rs s [] = .pause p log) :
-    ∃ log', stepAsync nested sem gi g runSpan k order s rs = .pause p log' := by
+    (p : PauseInfo) (ps : GState) (log : List Log) (order : List Nat)
+    (hsync : stepSync nested sem gi g runSpan k s rs s [] = .pause p ps log) :
+    ∃ ps' log', stepAsync nested sem gi g runSpan k order s rs = .pause p ps' log' := by
   have habs := stepSync_abs nested sem gi g runSpan k s rs hni s []
   rw [hsync] at habs
   obtain ⟨pre, bad, post, hrs, hpre, hbp⟩ :=
     (syncAbs_char nested sem gi g runSpan k s rs s).2.2 p habs.symm
   have hbad : isBad (asyncOne₂ nested sem gi g runSpan k s bad) = true := isBad_of_pause hbp
-  refine ⟨(permute (rs.map (asyncOne₂ nested sem gi g runSpan k s)) order).flatMap (·.out.log), ?_⟩
+  refine ⟨(rs.map (asyncOne₂ nested sem gi g runSpan k s)).foldl (valStep s)
+      ((permute (rs.map (asyncOne₂ nested sem gi g runSpan k s)) order).foldl decStep s),
+    (permute (rs.map (asyncOne₂ nested sem gi g runSpan k s)) order).flatMap (·.out.log), ?_⟩
   rw [stepAsync_eq, asyncRs_of_no_interrupt hni]
   simp only
   have hf : (rs.map (asyncOne₂ nested sem gi g runSpan k s)).find? isBad =
@@ -1769,7 +1771,7 @@ theorem runLoop_sync_async (fuel : Nat) : ∀ (k : Nat) (a b : GState) (la lb : 
         have hid := stepSync_ok_async_id nested sem gi g span k s1a rs hni' ns l hS
         have hc := (stepAsync_congr nested sem gi g span k (List.range rs.length) (order k) heq rs hnd').cases
         rw [hid] at hc
-        rcases hc with ⟨a', la', b', lb', h1, h2, h3, h4⟩ | ⟨e, a', la', b', lb', h1, _⟩ | ⟨p, la', lb', h1, _⟩
+        rcases hc with ⟨a', la', b', lb', h1, h2, h3, h4⟩ | ⟨e, a', la', b', lb', h1, _⟩ | ⟨p, a', la', b', lb', h1, _⟩
         · cases h1
           rw [h2] at habs
           obtain ⟨l'', hY⟩ := StepOut.eq_of_abs_ok habs.symm
@@ -1785,7 +1787,7 @@ theorem runLoop_sync_async (fuel : Nat) : ∀ (k : Nat) (a b : GState) (la lb : 
           first_error_core nested sem gi g span k s1a rs hni' e ps l (order k) hS
         have hc := (stepAsync_congr nested sem gi g span k (order k) (order k) heq rs hnd').cases
         rw [hasync] at hc
-        rcases hc with ⟨a', la', b', lb', h1, _⟩ | ⟨e', a', la', b', lb', h1, h2, _⟩ | ⟨p, la', lb', h1, _⟩
+        rcases hc with ⟨a', la', b', lb', h1, _⟩ | ⟨e', a', la', b', lb', h1, h2, _⟩ | ⟨p, a', la', b', lb', h1, _⟩
         · cases h1
         · cases h1
           rw [h2] at habs
@@ -1793,18 +1795,18 @@ theorem runLoop_sync_async (fuel : Nat) : ∀ (k : Nat) (a b : GState) (la lb : 
           rw [hY]
           simp only [LoopOut.Rel]
         · cases h1
-      | pause p l =>
-        obtain ⟨log', hasync⟩ := pause_core nested sem gi g span k s1a rs hni' p l (order k) hS
+      | pause p ps l =>
+        obtain ⟨ps', log', hasync⟩ := pause_core nested sem gi g span k s1a rs hni' p ps l (order k) hS
         have hc := (stepAsync_congr nested sem gi g span k (order k) (order k) heq rs hnd').cases
         rw [hasync] at hc
-        rcases hc with ⟨a', la', b', lb', h1, _⟩ | ⟨e', a', la', b', lb', h1, _⟩ | ⟨p', la', lb', h1, h2, _⟩
+        rcases hc with ⟨a', la', b', lb', h1, _⟩ | ⟨e', a', la', b', lb', h1, _⟩ | ⟨p', a', la', b', lb', h1, h2, _⟩
         · cases h1
         · cases h1
         · cases h1
           rw [h2] at habs
-          obtain ⟨l'', hY⟩ := StepOut.eq_of_abs_pause habs.symm
+          obtain ⟨ps'', l'', hY⟩ := StepOut.eq_of_abs_pause habs.symm
           rw [hY]
-          exact ⟨rfl, heq⟩
+          simp only [LoopOut.Rel]
 end
 
 /-- `runGraph` after the loop: output filtering, run-end event, error handling mode -/
@@ -1849,11 +1851,12 @@ theorem runGraph_async_eq (nested : Nested) (sem : Sem) (order : Nat → List Na
         (runLoop (fun k s rs => stepAsync nested sem gi g span k (order k) s rs) g (activeNodeSet g)
           cfg.maxIter cfg.maxIter 0 (initState values) [runStartEv span parent g ""]) := rfl
 
-/-- the observable agreement of two runs: status, error, raised; values unless the run failed
-in `continue` mode (then the partial states differ: async lets the siblings of the failing node finish) -/
+/-- the observable agreement of two runs: status, error, raised, pause; values unless the run failed
+in `continue` mode or paused (then the partial states differ: async lets the siblings of the failing /
+pausing node finish and reports their outputs, the sync step reports its snapshot) -/
 def RunOut.Agree (errMode : ErrMode) (a b : RunOut) : Prop :=
   a.status = b.status ∧ a.error = b.error ∧ a.raised = b.raised ∧ a.pause = b.pause ∧
-    ((a.status ≠ .failed ∨ errMode = .raise) → a.values = b.values)
+    ((a.status ≠ .failed ∨ errMode = .raise) → a.status ≠ .paused → a.values = b.values)
 
 theorem finishRun_rel (g : GraphD) (cfg : RunCfg) (span : Span) (parent : Option Span) {x y : LoopOut}
     (h : LoopOut.Rel x y) :
@@ -1866,10 +1869,10 @@ theorem finishRun_rel (g : GraphD) (cfg : RunCfg) (span : Span) (parent : Option
         filterOutputs_congr₂ g h.1 _ _
       simp only [finishRun₂, hv]
       cases filterOutputs g b cfg.select cfg.onMissing with
-      | ok vw => exact ⟨rfl, rfl, rfl, rfl, fun _ => rfl⟩
+      | ok vw => exact ⟨rfl, rfl, rfl, rfl, fun _ _ => rfl⟩
       | error e =>
         simp only
-        cases cfg.errMode <;> exact ⟨rfl, rfl, rfl, rfl, fun _ => rfl⟩
+        cases cfg.errMode <;> exact ⟨rfl, rfl, rfl, rfl, fun _ _ => rfl⟩
     | fail _ _ _ _ => exact h.elim
     | pause _ _ _ _ => exact h.elim
   | fail e pa la ka =>
@@ -1880,10 +1883,10 @@ theorem finishRun_rel (g : GraphD) (cfg : RunCfg) (span : Span) (parent : Option
       subst he
       simp only [finishRun₂]
       cases hm : cfg.errMode with
-      | raise => exact ⟨rfl, rfl, rfl, rfl, fun _ => rfl⟩
+      | raise => exact ⟨rfl, rfl, rfl, rfl, fun _ _ => rfl⟩
       | cont =>
         refine ⟨rfl, rfl, rfl, rfl, ?_⟩
-        intro hc
+        intro hc _
         rcases hc with hc | hc
         · exact absurd rfl hc
         · cases hc
@@ -1893,12 +1896,10 @@ theorem finishRun_rel (g : GraphD) (cfg : RunCfg) (span : Span) (parent : Option
     | done _ _ _ => exact h.elim
     | fail _ _ _ _ => exact h.elim
     | pause p' pb lb kb =>
-      obtain ⟨hp, heq⟩ := h
+      have hp : p = p' := h
       subst hp
-      have hv : filterOutputs g pa cfg.select .ignore = filterOutputs g pb cfg.select .ignore :=
-        filterOutputs_congr₂ g heq.1 _ _
-      simp only [finishRun₂, hv]
-      exact ⟨rfl, rfl, rfl, rfl, fun _ => rfl⟩
+      simp only [finishRun₂]
+      exact ⟨rfl, rfl, rfl, rfl, fun _ hnp => absurd rfl hnp⟩
 
 /-- whole runs, given that the async step does not distinguish `nested` from `nested'` -/
 theorem runGraph_sync_async (nested nested' : Nested) (sem : Sem) (order : Nat → List Nat) (gi : Nat) (g : GraphD)
@@ -2289,6 +2290,161 @@ theorem mapGraph_same (itemS itemA : AL Val → Span → RunOut)
         rw [hres hff, hf2 hff]
         simpa using hsame
 
+/-! ## interrupt-free programs never pause
+
+A pause starts at an interrupt node whose handler returned `None` and is re-raised by the nested-graph
+nodes above it; a program without interrupt nodes never pauses, under either runner. (This is what
+keeps the sync / async agreement below free of the pause case, where the two steps report different
+partial states: `stepSync` its snapshot, `stepAsync` the snapshot plus the successful siblings.) -/
+
+/-- the nested `run` callback never reports a pause -/
+def Nested.NoPause (n : Nested) : Prop := ∀ gi v sp, (n.run gi v sp).status ≠ .paused
+
+theorem execGraphNode_pause_none {n : Nested} (hn : n.NoPause) (nd : NodeD) (inputs : AL Val) (sp : Span) :
+    (execGraphNode n nd inputs sp).pause = none := by
+  unfold execGraphNode
+  simp only []
+  split
+  · split
+    · rfl
+    · split <;> rfl
+  · split
+    · rfl
+    · split
+      · rename_i hs _; exact absurd hs (hn _ _ _)
+      · rfl
+
+/-- a node that is neither an interrupt nor a graph node with a pausing nested run does not pause -/
+theorem execNode_pause_none {n : Nested} (sem : Sem) (gi : Nat) (nd : NodeD) (inputs : AL Val) (ns : GState)
+    (sp : Span) (hk : nd.kind ≠ .interrupt) (hn : nd.kind = .graph → n.NoPause) :
+    (execNode n sem gi nd inputs ns sp).pause = none := by
+  unfold execNode
+  cases hkk : nd.kind with
+  | fn =>
+    simp only [execFn]
+    split
+    · rfl
+    · rfl
+    · split <;> rfl
+  | ifelse =>
+    simp only [execIfElse]
+    split <;> rfl
+  | route =>
+    simp only [execRoute]
+    split
+    · rfl
+    · split <;> rfl
+    · split <;> rfl
+    · rfl
+  | graph => exact execGraphNode_pause_none (hn hkk) nd inputs sp
+  | interrupt => exact absurd hkk hk
+
+theorem asyncOne_pause_none {n : Nested} (sem : Sem) (gi : Nat) (g : GraphD) (runSpan : Span) (k : Nat)
+    (s : GState) (nd : NodeD) (hk : nd.kind ≠ .interrupt) (hn : nd.kind = .graph → n.NoPause) :
+    (asyncOne₂ n sem gi g runSpan k s nd).out.pause = none := by
+  cases hc : collectInputs g s nd nd.inputs with
+  | none => rw [asyncOne_none n sem gi g runSpan k s nd hc]
+  | some inputs =>
+    rw [(asyncOne_some n sem gi g runSpan k s nd inputs hc).2.2.2]
+    exact execNode_pause_none sem gi nd inputs s _ hk hn
+
+theorem stepSync_no_pause {n : Nested} (sem : Sem) (gi : Nat) (g : GraphD) (runSpan : Span) (k : Nat)
+    (s : GState) (rs : List NodeD) (hni : ∀ nd ∈ rs, nd.kind ≠ .interrupt)
+    (hn : ∀ nd ∈ rs, nd.kind = .graph → n.NoPause) :
+    ∀ (ns : GState) (log : List Log) (p : PauseInfo) (ps : GState) (l : List Log),
+      stepSync n sem gi g runSpan k s rs ns log ≠ .pause p ps l := by
+  induction rs with
+  | nil => intro ns log p ps l h; simp [stepSync] at h
+  | cons nd rest ih =>
+    intro ns log p ps l h
+    rw [stepSync_cons] at h
+    cases hc : collectInputs g s nd nd.inputs with
+    | none => simp [hc] at h
+    | some inputs =>
+      simp only [hc] at h
+      have hp := execNode_pause_none (n := n) sem gi nd inputs ns (nodeSpanOf runSpan k nd)
+        (hni nd (List.mem_cons_self ..)) (hn nd (List.mem_cons_self ..))
+      simp only [hp] at h
+      split at h
+      · cases h
+      · exact ih (fun x hx => hni x (List.mem_cons_of_mem _ hx)) (fun x hx => hn x (List.mem_cons_of_mem _ hx))
+          _ _ _ _ _ h
+
+theorem stepAsync_no_pause {n : Nested} (sem : Sem) (gi : Nat) (g : GraphD) (runSpan : Span) (k : Nat)
+    (order : List Nat) (s : GState) (rs : List NodeD) (hni : ∀ nd ∈ rs, nd.kind ≠ .interrupt)
+    (hn : ∀ nd ∈ rs, nd.kind = .graph → n.NoPause) (p : PauseInfo) (ps : GState) (l : List Log) :
+    stepAsync n sem gi g runSpan k order s rs ≠ .pause p ps l := by
+  intro h
+  rw [stepAsync_eq, asyncRs_of_no_interrupt hni] at h
+  simp only at h
+  split at h
+  · cases h
+  · rename_i r hf
+    have hmem := List.mem_of_find?_eq_some hf
+    obtain ⟨nd, hnd, rfl⟩ := List.mem_map.1 hmem
+    have hp := asyncOne_pause_none (n := n) sem gi g runSpan k s nd (hni nd hnd) (hn nd hnd)
+    generalize asyncOne₂ n sem gi g runSpan k s nd = r at h hp
+    cases hres : r.out.res <;> simp [hp, hres] at h
+
+theorem runLoop_no_pause (step : Nat → GState → List NodeD → StepOut) (g : GraphD) (act : Option (List Name))
+    (mi : Nat) (hstep : ∀ k s rs, rs.Sublist g.nodes → ∀ p ps l, step k s rs ≠ .pause p ps l) :
+    ∀ (fuel k : Nat) (s : GState) (log : List Log) (p : PauseInfo) (ps : GState) (l : List Log) (m : Nat),
+      runLoop step g act mi fuel k s log ≠ .pause p ps l m := by
+  intro fuel
+  induction fuel with
+  | zero =>
+    intro k s log p ps l m h
+    simp only [runLoop] at h
+    split at h <;> cases h
+  | succ fuel ih =>
+    intro k s log p ps l m h
+    have hsub := ready_sublist g act s
+    simp only [runLoop] at h
+    generalize ready g act s = r at h hsub
+    obtain ⟨rs, s1⟩ := r
+    cases rs with
+    | nil => cases h
+    | cons nd rest =>
+      simp only at h hsub
+      cases hs : step k s1 (nd :: rest) with
+      | ok ns l' => rw [hs] at h; exact ih _ _ _ _ _ _ _ h
+      | fail e ps' l' => rw [hs] at h; cases h
+      | pause p' ps' l' => exact hstep k s1 _ hsub _ _ _ hs
+
+theorem finishRun₂_status_of_not_pause (g : GraphD) (cfg : RunCfg) (span : Span) (parent : Option Span)
+    (lo : LoopOut) (h : ∀ p ps l m, lo ≠ .pause p ps l m) : (finishRun₂ g cfg span parent lo).status ≠ .paused := by
+  cases lo with
+  | done s log k =>
+    simp only [finishRun₂]
+    cases filterOutputs g s cfg.select cfg.onMissing with
+    | ok vw => simp
+    | error e => simp only; cases cfg.errMode <;> simp
+  | fail e ps log k =>
+    simp only [finishRun₂]
+    cases cfg.errMode <;> simp
+  | pause p ps log k => exact absurd rfl (h p ps log k)
+
+/-- a run of an interrupt-free graph whose nested runs never pause does not pause -/
+theorem runGraph_not_paused (nested : Nested) (sem : Sem) (runner : Runner) (gi : Nat) (g : GraphD)
+    (values : AL Val) (cfg : RunCfg) (span : Span) (parent : Option Span)
+    (hni : ∀ nd ∈ g.nodes, nd.kind ≠ .interrupt) (hn : ∀ nd ∈ g.nodes, nd.kind = .graph → nested.NoPause) :
+    (runGraph nested sem runner gi g values cfg span parent).status ≠ .paused := by
+  cases runner with
+  | sync =>
+    rw [runGraph_sync_eq]
+    apply finishRun₂_status_of_not_pause
+    apply runLoop_no_pause
+    intro k s rs hsub p ps l
+    exact stepSync_no_pause sem gi g span k s rs (fun x hx => hni x (hsub.subset hx))
+      (fun x hx => hn x (hsub.subset hx)) _ _ _ _ _
+  | async order =>
+    rw [runGraph_async_eq]
+    apply finishRun₂_status_of_not_pause
+    apply runLoop_no_pause
+    intro k s rs hsub p ps l
+    exact stepAsync_no_pause sem gi g span k (order k) s rs (fun x hx => hni x (hsub.subset hx))
+      (fun x hx => hn x (hsub.subset hx)) _ _ _
+
 /-- every graph of the program is interrupt-free and has unique node names -/
 def Program.Regular (prog : Program) : Prop :=
   ∀ g ∈ prog, (∀ nd ∈ g.nodes, nd.kind ≠ .interrupt) ∧ (g.nodes.map (·.name)).Nodup
@@ -2304,6 +2460,20 @@ theorem Program.Regular.getD {prog : Program} (h : prog.Regular) (gi : Nat) :
   | some g =>
     simp only [Option.getD_some]
     exact h g (List.mem_of_getElem? hg)
+
+/-- the nested callbacks of an interrupt-free program never report a pause -/
+theorem nestedAt_noPause (sem : Sem) (runner : Runner) (prog : Program) (hprog : prog.Regular) :
+    ∀ d, (nestedAt sem runner prog d).NoPause
+  | 0 => fun _ _ _ => by simp [nestedAt]
+  | d + 1 => fun gi v sp =>
+    runGraph_not_paused _ sem runner gi (prog.getD gi default) v {} (sp ++ ["run"]) (some sp)
+      (hprog.getD gi).1 (fun _ _ _ => nestedAt_noPause sem runner prog hprog d)
+
+/-- `runner.run` on an interrupt-free program never pauses -/
+theorem run_not_paused (sem : Sem) (runner : Runner) (prog : Program) (hprog : prog.Regular)
+    (root : Nat) (values : AL Val) (cfg : RunCfg) : (run sem runner prog root values cfg).status ≠ .paused :=
+  runGraph_not_paused _ sem runner root (prog.getD root default) values cfg ["r"] .none
+    (hprog.getD root).1 (fun _ _ _ => nestedAt_noPause sem runner prog hprog prog.length)
 
 theorem runGraph_failed_error_sync (nested : Nested) (sem : Sem) (gi : Nat) (g : GraphD)
     (values : AL Val) (cfg : RunCfg) (span : Span) (parent : Option Span)
@@ -2323,14 +2493,18 @@ theorem nestedAt_agree (sem : Sem) (order : Nat → List Nat) (prog : Program) (
       obtain ⟨hni, hnd⟩ := hprog.getD gi
       obtain ⟨h1, h2, h3, h4, h5⟩ := runGraph_agree _ _ ih sem order gi (prog.getD gi default) v {}
         (sp ++ ["run"]) (some sp) hni hnd
-      exact ⟨h1, h5 (Or.inr rfl), h2, h3, h4⟩
+      have hnp := runGraph_not_paused (nestedAt sem .sync prog d) sem .sync gi (prog.getD gi default) v {}
+        (sp ++ ["run"]) (some sp) hni (fun _ _ _ => nestedAt_noPause sem .sync prog hprog d)
+      exact ⟨h1, h5 (Or.inr rfl) hnp, h2, h3, h4⟩
     · intro gi v mo mode em sp
       obtain ⟨hni, hnd⟩ := hprog.getD gi
       apply mapGraph_same
       · intro v' sp'
         obtain ⟨h1, h2, _, _, h5⟩ := runGraph_agree _ _ ih sem order gi (prog.getD gi default) v'
           { errMode := .cont } sp' (some (sp ++ ["map"])) hni hnd
-        exact ⟨h1, h2, fun hs => h5 (Or.inl hs)⟩
+        have hnp := runGraph_not_paused (nestedAt sem .sync prog d) sem .sync gi (prog.getD gi default) v'
+          { errMode := .cont } sp' (some (sp ++ ["map"])) hni (fun _ _ _ => nestedAt_noPause sem .sync prog hprog d)
+        exact ⟨h1, h2, fun hs => h5 (Or.inl hs) hnp⟩
       · intro v' sp' hs
         exact runGraph_failed_error_sync _ sem gi _ v' _ sp' _ hs
 
@@ -2354,7 +2528,10 @@ theorem map_agree (sem : Sem) (order : Nat → List Nat) (prog : Program) (hprog
   · intro v' sp'
     obtain ⟨h1, h2, _, _, h5⟩ := runGraph_agree _ _ (nestedAt_agree sem order prog hprog prog.length) sem order
       root (prog.getD root default) v' { cfg with errMode := .cont } sp' (some ["m"]) hni hnd
-    exact ⟨h1, h2, fun hs => h5 (Or.inl hs)⟩
+    have hnp := runGraph_not_paused (nestedAt sem .sync prog prog.length) sem .sync root (prog.getD root default) v'
+      { cfg with errMode := .cont } sp' (some ["m"]) hni
+      (fun _ _ _ => nestedAt_noPause sem .sync prog hprog prog.length)
+    exact ⟨h1, h2, fun hs => h5 (Or.inl hs) hnp⟩
   · intro v' sp' hs
     exact runGraph_failed_error_sync _ sem root _ v' _ sp' _ hs
 
@@ -2408,7 +2585,7 @@ def progN : Program := elabProgram specsN
 def stateOf : StepOut → GState
   | .ok ns _ => ns
   | .fail _ ps _ => ps
-  | .pause _ _ => {}
+  | .pause _ ps _ => ps
 def isOk : StepOut → Bool
   | .ok _ _ => true
   | _ => false
